@@ -223,8 +223,8 @@ class LDAWrapper(LinearSolver):
                 badd = (A @ xnew[..., i])[isel, ...]
                 for x, b in zip(x_data, b_data):
                     beta = badd @ b.conj() / (b.conj() @ b)
-                    badd -= beta * b
-                    xadd -= beta * x
+                    badd = badd - beta * b
+                    xadd = xadd - beta * x
                 bnrm = np.linalg.norm(badd)
                 if not np.isfinite(bnrm) or bnrm == 0:
                     continue
